@@ -86,6 +86,11 @@ package bcl
 //@   ensures [C13] no_short_read_when_ok: err == nil ==> !g.short
 //@   ensures [C13,C14] header_checked: err == nil ==> g.rlen >= 4 && rbyte(0) == 252 && rbyte(1) == 108 && rbyte(2) == 1 && rbyte(3) <= 1
 //@   ensures [C09] complete_program: err == nil ==> prog.linePos != nil
+//@   assert [C09,C13] magic_missing_only_if_stream_short: at Errorf#1: g.short
+//@   assert [C09,C13] version_missing_only_if_stream_short: at Errorf#3: g.short
+//@   assert [C09,C13] name_short_only_if_stream_short: at Errorf#7: g.short
+//@   assert [C09,C13] code_short_only_if_stream_short: at Errorf#9: g.short
+//@   assert [C09,C13] code_short_only_if_stream_short2: at Errorf#10: g.short
 //@   loop 1 invariant 0 <= i && !g.short && g.rp >= 4 && int(m) == len(prog.constants) && m <= 2147483647
 //@   loop 2 invariant 0 <= i && !g.short && g.rp >= 4 && int(m) == len(prog.positions) && m <= 2147483647
 //@   loop 3 invariant 0 <= i && !g.short && g.rp >= 4 && prog.linePos != nil && int(m) == len(prog.linePos.lfs) && m <= 2147483647
